@@ -27,10 +27,9 @@ class Fn:
             self.params = self.params[1:]
         self.optional = set()
         for n in ast.walk(fn):
-            if isinstance(n, ast.Compare) and len(n.ops) == 1 and isinstance(n.ops[0], (ast.Is, ast.IsNot)) \
-                    and isinstance(n.left, ast.Name) and isinstance(n.comparators[0], ast.Constant) and n.comparators[0].value is None:
-                if n.left.id in self.params:
-                    self.optional.add(n.left.id)
+            nt = Fn.none_test(self, n) if isinstance(n, ast.Compare) else None
+            if nt is not None and nt[0] in self.params:
+                self.optional.add(nt[0])
 
     # -- expressions (Int) ------------------------------------------------------------------------
     def ex(self, e, env):
@@ -71,10 +70,17 @@ class Fn:
         raise Unsupported('condition ' + ast.unparse(e))
 
     def none_test(self, e):
-        """`x is None` -> (x, True); `x is not None` -> (x, False); else None"""
-        if isinstance(e, ast.Compare) and len(e.ops) == 1 and isinstance(e.ops[0], (ast.Is, ast.IsNot)) \
-                and isinstance(e.left, ast.Name) and isinstance(e.comparators[0], ast.Constant) and e.comparators[0].value is None:
-            return e.left.id, isinstance(e.ops[0], ast.Is)
+        """`x is None` / `None is x` / `x == None` -> (x, True); `x is not None` / … -> (x, False); else None"""
+        if isinstance(e, ast.Compare) and len(e.ops) == 1 and isinstance(e.ops[0], (ast.Is, ast.IsNot, ast.Eq, ast.NotEq)):
+            l, r = e.left, e.comparators[0]
+            if isinstance(l, ast.Constant) and l.value is None:
+                l, r = r, l
+            if isinstance(l, ast.Name) and isinstance(r, ast.Constant) and r.value is None:
+                return l.id, isinstance(e.ops[0], (ast.Is, ast.Eq))
+        if isinstance(e, ast.UnaryOp) and isinstance(e.op, ast.Not):
+            inner = self.none_test(e.operand)
+            if inner is not None:
+                return inner[0], not inner[1]
         return None
 
     # -- statements ------------------------------------------------------------------------------
